@@ -54,6 +54,15 @@ func genNet(seed uint64, tier string, prop string) *Plan {
 		g.n = r.rng(2, 4)
 	}
 	g.nt = r.rng(1, 2)
+	// "wide hub" (C01 only, one run in sixteen): 4 or 5 meshed pairs, each joined to one node of
+	// a further pair by a link that carries gossip only, so that this node serves the same message
+	// to 4..5 lazy requesters that have no other route
+	wideK := 0
+	if prop == "C01" && r.chance(0.06) {
+		wideK = r.rng(4, 5)
+		g.n = 2 + 2*wideK
+		g.nt = 1
+	}
 	p.Knobs["ntopics"] = float64(g.nt)
 	// routers
 	rs := make([]byte, g.n)
@@ -75,6 +84,11 @@ func genNet(seed uint64, tier string, prop string) *Plan {
 			rs[i] = "ggfr"[r.intn(4)]
 		}
 	}
+	if wideK > 0 {
+		for i := range rs {
+			rs[i] = 'g'
+		}
+	}
 	g.routers = string(rs)
 	p.SK["routers"] = g.routers
 	// gossipsub degrees
@@ -87,6 +101,9 @@ func genNet(seed uint64, tier string, prop string) *Plan {
 		for dout+1 < dlo && dout+1 < d/2 {
 			dout++
 		}
+	}
+	if wideK > 0 {
+		dlo, d, dhi, dlazy, dout = 1, 2, wideK+2+r.rng(0, 2), wideK+r.rng(0, 2), 0
 	}
 	p.Knobs["D"], p.Knobs["Dlo"], p.Knobs["Dhi"], p.Knobs["Dlazy"], p.Knobs["Dout"] = float64(d), float64(dlo), float64(dhi), float64(dlazy), float64(dout)
 	p.Knobs["Dscore"] = float64(r.rng(0, d))
@@ -142,6 +159,20 @@ func genNet(seed uint64, tier string, prop string) *Plan {
 			}
 		}
 		p.SK["fanout_only"] = strings.Join(fo, ",")
+	}
+	if prop == "C01" && r.chance(0.35) {
+		// short gossip windows: a message is advertised in 1 or 2 heartbeats only
+		hg := r.rng(1, 2)
+		p.Knobs["history_gossip"] = float64(hg)
+		// (at least one slot more than the gossip window: Shift runs in the heartbeat that sends the
+		// last advertisement, so with HistoryLength == HistoryGossip the message is gone from the
+		// cache before the IWANT it provoked arrives -- an observation in DESIGN.md, not a C01 case)
+		p.Knobs["history_len"] = float64(hg + r.rng(1, 3))
+	}
+	switch {
+	case wideK > 0:
+		g.genWideHub(wideK)
+		return p
 	}
 	switch prop {
 	case "C01":
@@ -435,6 +466,38 @@ func (g *netGen) genIslands() bool {
 		}
 	}
 	return true
+}
+
+// genWideHub: pairs (2j, 2j+1) mesh with each other (Dlo = 1: their meshes are full); later node 0
+// is joined to one node of every other pair. Nobody grafts over the new links, which carry gossip
+// only; node 0 has k lazy peers that depend on it.
+func (g *netGen) genWideHub(k int) {
+	r := g.r
+	for i := 0; i < g.n; i++ {
+		g.sub(i, 0, false)
+	}
+	for j := 0; j <= k; j++ {
+		g.connect(2*j, 2*j+1)
+	}
+	g.add("adv", int64(r.rng(3000, 6000)))
+	for j := 1; j <= k; j++ {
+		g.connect(0, 2*j+r.intn(2))
+	}
+	g.add("settle", int64(r.rng(0, 1500)))
+	for round := r.rng(1, 2); round > 0; round-- {
+		for n := r.rng(1, 3); n > 0; n-- {
+			pubr := r.intn(g.n)
+			if r.chance(0.5) {
+				pubr = r.intn(2) // the hub's own pair: every other pair has to pull the message from the hub
+			}
+			g.add("pub", int64(pubr), 0, int64(r.rng(8, 300)))
+			if r.chance(0.6) {
+				g.add("advus", int64(r.rng(1, 30000)))
+			}
+		}
+		g.add("deliver")
+		g.add("check")
+	}
 }
 
 func (g *netGen) genC01() {
